@@ -112,9 +112,9 @@ def gen_vector(rng):
         bad = ["two_level_rel", "not_ini", "custom_cfg", "short_missing", "abs_missing"]
         n = rng.choice([1, 1, 1, 2, 2, 3])
         v["configs"] = [rng.choice(bad) if rng.random() < 0.08 else rng.choice(good) for _ in range(n)]
-    if rng.random() < 0.45:
+    if rng.random() < (0.6 if v["configs"] else 0.08):
         v["sys"] = rng.choice(SYS_INI + SYS_CUSTOM + SYS_CUSTOM[:2] * 4 + ["Nope", "internal-default"])
-    if rng.random() < 0.45:
+    if rng.random() < (0.6 if v["configs"] else 0.08):
         v["mem"] = rng.choice(MEM_INI + MEM_CUSTOM * 2 + ["Nope", "internal-default"])
     if rng.random() < 0.6:
         v["accel"] = rng.choice(ACCELS) if rng.random() < 0.97 else rng.choice(["ethos-u55-100", "Ethos-U55-128", "u65", ""])
@@ -123,13 +123,13 @@ def gen_vector(rng):
     if rng.random() < 0.5:
         v["opt"] = rng.choice(STRATEGIES) if rng.random() < 0.94 else rng.choice(["size", "Speed", "1", ""])
     if rng.random() < 0.3:
-        v["blockdep"] = rng.choice([0, 1, 2, 3, 0, 1, 2, 3, -1, 4, 10 ** 20, -10 ** 20, 255])
+        v["blockdep"] = rng.choice([0, 1, 2, 3, 0, 1, 2, 3, 0, 1, 2, 3, -1, 4, 10 ** 20, -10 ** 20, 255])
     if rng.random() < 0.4:
         v["arena"] = rng.choice([-1, 0, 1, 16, 1024, 4096, 65536, 393216, 1 << 20, 2 ** 31, 2 ** 32 - 1, 2 ** 32, 2 ** 32 + 1,
                                  2 ** 40 - 1, 2 ** 40, 2 ** 40 + 1, 2 ** 64, 10 ** 30, -10 ** 30, -(2 ** 32),
                                  rng.randrange(0, 1 << 22), rng.randrange(0, 1 << 44)])
     if rng.random() < 0.4:
-        v["align"] = rng.choice([15, 16, 17, 0, 1, 2, 8, -16, -1, 24, 48, 31, 32, 33, 64, 128, 256, 4096, 10 ** 30, -10 ** 30,
+        v["align"] = 1 << rng.randrange(4, 40) if rng.random() < 0.4 else rng.choice([15, 16, 17, 0, 1, 2, 8, -16, -1, 24, 48, 31, 32, 33, 64, 128, 256, 4096, 10 ** 30, -10 ** 30,
                                  _pow2_neighbourhood(rng), _pow2_neighbourhood(rng), rng.randrange(-64, 600)])
     if rng.random() < 0.25:
         # 1 .. 999 left out: whether the interpreter can honour such a limit depends on the stack depth of the caller
@@ -368,9 +368,10 @@ def _job(job):
 
 
 KNOWN_KEYS = {
-    # crash site of the unchanged tree -> key of the recorded defect (known_findings.txt, repairs /verif_patches/C13-60..62)
+    # crash site of the unchanged tree -> key of the recorded defect (known_findings.txt, repairs /verif_patches/C13-60..63)
     "cli:recursion-limit-not-validated": lambda r: r["site"].endswith("@vela.main") and r["crash"].split(":")[0] in ("ValueError", "OverflowError", "RecursionError"),
     "cli:enum-option-keyerror": lambda r: r["crash"].startswith("KeyError") and "_member_map_" in r.get("tb", ""),
+    "cli:huge-alignment-shape-exceeds-int32": lambda r: r.get("site") == "TypeError@tflite_writer.write_int_vector" and "for type int32" in r["crash"],
     "cli:missing-network-file": lambda r: r["crash"].startswith("FileNotFoundError") and "absent_n" in r["crash"],
 }
 
@@ -415,7 +416,7 @@ def run(ck, only=None):
                 raise common.InfraError(f"c13_cli: driver answered {exp} to {line}")
             want = exp.split()
             want_kind = {"ok": "accepted" if want[1] == "compile" else want[1], "diag": want[1]}[want[0]]
-            ck.count("cli_model_" + (want[2] if want[0] == "diag" else want[1]))
+            ck.count("cli_model_" + (want[2].split(".")[-1] if want[0] == "diag" else want[1]))
             ck.count("cli_real_" + r["kind"])
             distinct.add(line)
             replay = {"profile": "c13cli:", "vector": v, "argv": argv_of(v, files, "<workdir>"), "model_request": line,
